@@ -52,4 +52,22 @@ def count_configurations_rec(feature: Feature) -> int:
         elif relation.is_or():
             children_counts = [count_configurations_rec(f) + 1 for f in relation.children]
             counts.append(math.prod(children_counts) - 1)
+        else:  # mutex and cardinality groups
+            children_counts = [count_configurations_rec(f) for f in relation.children]
+            counts.append(count_group_cardinality(children_counts,
+                                                  relation.card_min,
+                                                  relation.card_max))
     return math.prod(counts)
+
+
+def count_group_cardinality(children_counts: list[int], card_min: int, card_max: int) -> int:
+    """Number of ways of selecting between card_min and card_max children,
+    each selected child contributing its own number of configurations."""
+    if card_max < 0 or card_max > len(children_counts):  # [a..*]
+        card_max = len(children_counts)
+    # ways[k] is the number of configurations with exactly k selected children
+    ways = [1] + [0] * len(children_counts)
+    for child_count in children_counts:
+        for k in range(len(children_counts), 0, -1):
+            ways[k] += ways[k - 1] * child_count
+    return sum(ways[card_min:card_max + 1])
